@@ -31,8 +31,8 @@ type c09Case struct {
 
 const c09Passphrase = "correct horse battery staple"
 
-func c09Sealed(t *testing.T, name string, ed bool) *verifEnv {
-	env, err := verifNewEnv(verifStateOpts{Name: name, Sealed: true, Passphrase: c09Passphrase, ClientCA: true, PublicKeysFile: true, Ed25519: ed,
+func c09Sealed(t *testing.T, name string, ed bool, pubKeys ...string) *verifEnv {
+	env, err := verifNewEnv(verifStateOpts{Name: name, Sealed: true, Passphrase: c09Passphrase, ClientCA: true, PublicKeysFile: true, Ed25519: ed, PublicKeysList: pubKeys,
 		Users: map[string]string{"alice": "alice-pw"}, AllowedCerts: []string{"password"}, AllowedWebUI: []string{"password"}, AdminUsers: []string{"alice"},
 		EnableTOTP: true, EnableBootstrap: true, CLILifetime: "1h",
 		ExtraTop: "openid_connect_idp:\n    clients:\n        - client_id: \"client-a\"\n          client_secret: \"secret-a\"\n          allowed_redirect_domains: [\"example.com\"]\n"})
@@ -288,10 +288,37 @@ func TestVerifC09(t *testing.T) {
 		e2 := c09Sealed(t, fmt.Sprintf("c09-t%d", i), true)
 		transition(e2, K, fmt.Sprintf("K=%d", K))
 	}
-	// ---- after the unseal: published keys include the keys that sign
+	// ---- after the unseal: published keys include the keys that sign, whatever the
+	// (older) public-keys file listed before the restart
+	c09After(rep, env, "keys-file=both")
+	variants := map[string][]string{
+		"keys-file=ed25519-only":  {"ca_ed25519"},
+		"keys-file=rsa-only":      {"ca_rsa2048"},
+		"keys-file=unrelated-old": {"foreign_rsa2048", "foreign_ed25519"},
+		"keys-file=old+ed25519":   {"foreign_rsa2048", "ca_ed25519"},
+	}
+	vi := 0
+	for label, list := range variants {
+		vi++
+		e2 := c09Sealed(t, fmt.Sprintf("c09-v%d", vi), true, list...)
+		r := e2.DoAdmin(verifReq{Method: "POST", Path: "/admin/inject", Form: url.Values{"ssh_ca_password": {c09Passphrase}}, TLS: e2.TLSFor(leaf)}.Build())
+		if r.Code != 200 || e2.IsSealed() {
+			rep.Violate("C09/after/unseal-failed/"+label, fmt.Sprintf("the right passphrase did not unseal a deployment with %s (status %d)", label, r.Code), nil)
+			continue
+		}
+		c09After(rep, e2, label)
+	}
+	rep.Floor("sealed_probes", 500)
+	rep.Floor("wrong_passphrases", 15)
+	rep.Floor("right_passphrase_without_cert_refused", 2)
+	rep.Floor("transitions", 3)
+	rep.Floor("after_checks_ok", 5)
+}
+
+func c09After(rep *verifReport, env *verifEnv, label string) {
 	trust, err := verifPublishedTrust(env)
 	if err != nil {
-		rep.Violate("C09/after/no-published-keys", err.Error(), nil)
+		rep.Violate("C09/after/"+label+"/no-published-keys", err.Error(), nil)
 		return
 	}
 	var jwks jose.JSONWebKeySet
@@ -302,11 +329,11 @@ func TestVerifC09(t *testing.T) {
 		jwksKeys = append(jwksKeys, k.Key)
 	}
 	ck, lr := verifLogin(env, "alice", "alice-pw")
-	rep.Eval(fmt.Sprintf("after|login|%d", lr.Code))
+	rep.Eval(fmt.Sprintf(label+"|after|login|%d", lr.Code))
 	if ck == "" {
-		rep.Violate("C09/after/login-fails", "login does not work after the unseal", map[string]int{"status": lr.Code})
+		rep.Violate("C09/after/"+label+"/login-fails", "login does not work after the unseal", map[string]int{"status": lr.Code})
 	} else if _, ok := verifVerifyJWS(ck, jwksKeys); !ok {
-		rep.Violate("C09/after/cookie-not-under-jwks", "a session cookie issued after the unseal does not verify under the served JWKS", nil)
+		rep.Violate("C09/after/"+label+"/cookie-not-under-jwks", "a session cookie issued after the unseal does not verify under the served JWKS", nil)
 	} else {
 		rep.Count("after_checks_ok", 1)
 	}
@@ -317,19 +344,19 @@ func TestVerifC09(t *testing.T) {
 		q := verifCertReq("alice", "ssh", k.SSH, "1h", nil)
 		q.Cookies = verifCk(ck)
 		r := env.Do(q.Build())
-		rep.Eval(fmt.Sprintf("after|ssh-cert|%s|%d", k.Name, r.Code))
+		rep.Eval(fmt.Sprintf(label+"|after|ssh-cert|%s|%d", k.Name, r.Code))
 		if r.Code != 200 {
-			rep.Violate("C09/after/issuance-fails/"+k.Name, "certificate issuance does not work after the unseal", map[string]int{"status": r.Code})
+			rep.Violate("C09/after/"+label+"/issuance-fails/"+k.Name, "certificate issuance does not work after the unseal", map[string]int{"status": r.Code})
 			continue
 		}
 		c, err := verifParseSSHCert(r.Body)
 		sub, _, _, _, _ := ssh.ParseAuthorizedKey([]byte(k.SSH))
 		if err != nil {
-			rep.Violate("C09/after/unparsable", err.Error(), nil)
+			rep.Violate("C09/after/"+label+"/unparsable", err.Error(), nil)
 			continue
 		}
 		if bad := verifCheckSSHCert(c, "alice", sub, trust, nil, time.Now()); len(bad) > 0 {
-			rep.Violate("C09/after/cert-not-under-published-keys/"+k.Name, strings.Join(bad, "; "), nil)
+			rep.Violate("C09/after/"+label+"/cert-not-under-published-keys/"+k.Name, strings.Join(bad, "; "), nil)
 		} else {
 			rep.Count("after_checks_ok", 1)
 		}
@@ -338,7 +365,7 @@ func TestVerifC09(t *testing.T) {
 		r = env.Do(q.Build())
 		if xc, err := verifParseX509PEM(r.Body); r.Code == 200 && err == nil {
 			if bad := verifCheckX509UserCert(xc, "alice", k.Pub, trust); len(bad) > 0 {
-				rep.Violate("C09/after/x509-not-under-published-ca/"+k.Name, strings.Join(bad, "; "), nil)
+				rep.Violate("C09/after/"+label+"/x509-not-under-published-ca/"+k.Name, strings.Join(bad, "; "), nil)
 			} else {
 				rep.Count("after_checks_ok", 1)
 			}
@@ -346,11 +373,6 @@ func TestVerifC09(t *testing.T) {
 	}
 	rz := env.DoAdmin(verifReq{Path: "/readyz"}.Build())
 	if rz.Code != 200 {
-		rep.Violate("C09/after/not-ready", fmt.Sprintf("readiness answers %d after the unseal", rz.Code), nil)
+		rep.Violate("C09/after/"+label+"/not-ready", fmt.Sprintf("readiness answers %d after the unseal", rz.Code), nil)
 	}
-	rep.Floor("sealed_probes", 500)
-	rep.Floor("wrong_passphrases", 15)
-	rep.Floor("right_passphrase_without_cert_refused", 2)
-	rep.Floor("transitions", 3)
-	rep.Floor("after_checks_ok", 5)
 }
